@@ -154,7 +154,10 @@ W_SUBCHANNEL = """
 sub = channel.gateway.newchannel()
 if %(chreconf)r == "before":
     sub.reconfigure()            # the documented per-channel switch (default values), before the peer knows the channel
-channel.send(sub)
+if %(bigcarrier)r:
+    channel.send(("c" * 70000, sub))     # the channel travels inside a large item; what is sent on it right away must not depend on when the carrier is taken
+else:
+    channel.send(sub)
 if %(chreconf)r == "after":
     sub.reconfigure()
 for x in %(items)r:
@@ -237,6 +240,8 @@ def gen_conversation(rng, kinds, tag):
     elif kind == "subchannel":
         c["items"] = gen_items(rng, rng.randint(0, 3))
         c["items2"] = gen_items(rng, rng.randint(0, 3))
+        if rng.random() < 0.3:
+            c["bigcarrier"] = True
         if rng.random() < 0.5:
             # Channel.reconfigure (default values: no change of meaning) before or after the channel travels
             c["chreconf"] = rng.choice(["before", "after"])
@@ -274,7 +279,7 @@ def worker_source(c):
     if k == "halfclose":
         return W_HALFCLOSE
     if k == "subchannel":
-        return W_SUBCHANNEL % {"items": c["items"], "items2": c["items2"], "chreconf": c.get("chreconf"), "backend": c.get("backend", "close")}
+        return W_SUBCHANNEL % {"items": c["items"], "items2": c["items2"], "chreconf": c.get("chreconf"), "backend": c.get("backend", "close"), "bigcarrier": bool(c.get("bigcarrier"))}
     raise ValueError(k)
 
 
@@ -659,7 +664,12 @@ def run_program(prog, chooser, seed, line_budget=0, cut_w2i=None, remote_backend
                 o["end"] = type(e).__name__ + ":" + str(e)[:60]
         elif k == "subchannel":
             try:
+                if c.get("bigcarrier"):
+                    pr.em_i.sleep(0.5)                   # the carrier item and everything sent on the sub-channel have arrived
                 sub = ch.receive(timeout=20)
+                if c.get("bigcarrier"):
+                    o["carrier_ok"] = isinstance(sub, tuple) and len(sub) == 2 and sub[0] in ("c" * 70000, b"c" * 70000)   # bytes under a gateway reconfigured with py3str_as_py2str
+                    sub = sub[1] if isinstance(sub, tuple) and len(sub) == 2 else sub
                 o["sub_is_channel"] = type(sub).__name__ == "Channel"
                 o["sub_id"] = sub.id
                 o["got"] = []
@@ -910,8 +920,11 @@ def check_conversation(ck, prefix, c, o, out, ex, lossy=False):
         if list(map(canon_item, o.get("peer_got") or [])) != list(map(canon_item, c["items"])):
             ck.fail(prefix + "items-sent-in-send-only-state-lost", ex)
     elif k == "subchannel":
-        if o.get("end") != "closed" or not o.get("sub_is_channel"):
+        if o.get("end") != "closed" or not o.get("sub_is_channel") or o.get("carrier_ok") is False:
             ck.fail(prefix + "subchannel-conversation-failed:" + str(o.get("end")), ex)
+            if str(o.get("end")).startswith("TimeoutError") and o.get("sub_is_channel"):
+                # the channel arrived but what was sent on it (items, or its close) never did: lost on the way
+                ck.fail(prefix + "channel-over-channel-cross-connected-or-lossy:receive-blocked", ex)
             return
         if list(map(canon_item, o.get("got", []))) != list(map(canon_item, c["items"])) or list(map(canon_item, o.get("back_got", []))) != list(map(canon_item, c["items2"])):
             ck.fail(prefix + "channel-over-channel-cross-connected-or-lossy", ex)
